@@ -1,6 +1,6 @@
 (* C20Proofs.v — lemmas behind props/C20.v *)
 From SV Require Import Base Json Discover Migrate CorrC19 PathAlg C19Proofs CorrC20.
-From Coq Require Import Arith.
+From Coq Require Import Arith Lia.
 
 Local Opaque FUEL.
 
@@ -88,6 +88,37 @@ Section Gate.
     destruct (loc_up (S (length (abspath cwd path))) root cwd (abspath cwd path)) eqn:E.
     - apply loc_up_sound in E. exfalso. eapply nearest_not_none; eauto.
     - rewrite (older_up_first _ _ _ (older_raises _ v G V)). reflexivity.
+  Qed.
+
+  (* the same from BELOW the legacy project (a sub-directory, the workspace, a job directory; any spelling
+     of the path, relative ones included, since the search runs on abspath): [nearest_legacy sp d] - d is
+     reached from sp by iterating dirname, and no directory passed on the way holds a legacy
+     configuration the loaders can read *)
+  Inductive nearest_legacy : str -> str -> Prop :=
+  | NL_here : forall sp e, raise_if_older root cwd sp = Some e -> nearest_legacy sp sp
+  | NL_up : forall sp d, raise_if_older root cwd sp = None -> dirname sp <> sp ->
+      nearest_legacy (dirname sp) d -> nearest_legacy sp d.
+
+  Lemma older_up_nearest : forall fuel sp d e, (length sp < fuel)%nat -> nearest_legacy sp d ->
+    raise_if_older root cwd d = Some e -> older_up fuel root cwd sp = Some e.
+  Proof.
+    induction fuel as [|f IH]; intros sp d e L N R; [lia|]. simpl.
+    inversion N as [sp' e' R' | sp' d' R' D' N']; subst.
+    - rewrite R. reflexivity.
+    - rewrite R'. pose proof D' as D2. apply str_eqb_neq in D2. rewrite D2. apply IH with (d := d); auto.
+      destruct (dirname_shorter sp); [contradiction|lia].
+  Qed.
+
+  Lemma gate_get_project_legacy_below : forall path d v,
+    os_exists root cwd path = true -> no_cfg_above root cwd (abspath cwd path) ->
+    nearest_legacy (abspath cwd path) d ->
+    get_version root cwd d SCHEMA = Some v -> v <> SCHEMA ->
+    get_project root cwd path true = (Err EIncompatibleSchemaVersion, root).
+  Proof.
+    intros path d v X N NL G V. unfold get_project. rewrite X. simpl. unfold locate_config_dir.
+    destruct (loc_up (S (length (abspath cwd path))) root cwd (abspath cwd path)) eqn:E.
+    - apply loc_up_sound in E. exfalso. eapply nearest_not_none; eauto.
+    - rewrite (older_up_nearest _ _ d _ (Nat.lt_succ_diag_r _) NL (older_raises _ v G V)). reflexivity.
   Qed.
 
   (* search=False on a legacy project (since fix 7826961): refused AS SUCH, nothing touched *)
